@@ -22,7 +22,9 @@ Proof.
   - inversion H; subst. split; [intros j Hj; exact Hj|auto].
   - destruct (nth_error txs i) as [[t|]|] eqn:En; [eapply IH; eauto| |discriminate].
     destruct (pool_get h p) as [e|].
-    + destruct (set_nth txs i (Some (px_id e))) as [t1|] eqn:E1; [|discriminate].
+    + destruct (length txs <? i + length (members e))%nat.
+      { destruct (IH _ _ _ _ H) as [M O]. split; [exact M|]. intros T. specialize (O T). discriminate. }
+      destruct (set_nth txs i (Some (px_id e))) as [t1|] eqn:E1; [|discriminate].
       destruct (put_members t1 i (members e)) as [t2| |] eqn:E2; try discriminate.
       destruct (IH _ _ _ _ H) as [M O]. split; [|exact O].
       intros j Hj. eapply set_nth_nil_mono; [exact E1|]. eapply put_members_mono; [exact E2|]. apply M. exact Hj.
@@ -39,7 +41,9 @@ Proof.
   - destruct Hin as [<-|Hin]; [|eapply IH; eauto]. simpl.
     destruct (fill_mono _ _ _ _ _ _ H) as [M _]. intros C. apply M in C. congruence.
   - destruct (pool_get h p) as [e|].
-    + destruct (set_nth txs i (Some (px_id e))) as [t1|] eqn:E1; [|discriminate].
+    + destruct (length txs <? i + length (members e))%nat.
+      { destruct (fill_mono _ _ _ _ _ _ H) as [_ O]. specialize (O eq_refl). discriminate. }
+      destruct (set_nth txs i (Some (px_id e))) as [t1|] eqn:E1; [|discriminate].
       destruct (put_members t1 i (members e)) as [t2| |] eqn:E2; try discriminate.
       destruct Hin as [<-|Hin]; [|eapply IH; eauto]. simpl.
       destruct (fill_mono _ _ _ _ _ _ H) as [M _]. intros C. apply M in C.
@@ -78,14 +82,13 @@ Proof.
   exact (fill_true_filled _ _ _ _ _ Ef _ Hh C).
 Qed.
 
-Lemma scan_posts_full : forall nv p now timeout l keep tmo e pub blk,
-  scan nv p now timeout l = Ok (keep, tmo, e) -> In (Post pub blk) e -> no_nil (b_txs blk).
+Lemma scan_posts_full : forall p now timeout l keep tmo e pub blk,
+  scan p now timeout l = Ok (keep, tmo, e) -> In (Post pub blk) e -> no_nil (b_txs blk).
 Proof.
-  intros nv p now timeout l. induction l as [|pd l IH]; intros keep tmo e pub blk H Hin; simpl in H.
+  intros p now timeout l. induction l as [|pd l IH]; intros keep tmo e pub blk H Hin; simpl in H.
   - inversion H; subst. destruct Hin.
   - destruct (build p pd) as [[[pd' b] e0]| |] eqn:Eb; try discriminate.
-    destruct (nv && posted e0); [discriminate|].
-    destruct (scan nv p now timeout l) as [[[k t] e']| |] eqn:Es; try discriminate.
+    destruct (scan p now timeout l) as [[[k t] e']| |] eqn:Es; try discriminate.
     assert (In (Post pub blk) (e0 ++ e')) as Hin'.
     { destruct b; [inversion H; subst; exact Hin|].
       destruct (timeout <=? _); inversion H; subst; exact Hin. }
@@ -102,6 +105,8 @@ Lemma add_lt_posts_full : forall c p now from pub lb st st' e pub' blk,
   add_lt c p now from pub lb st = Ok (st', e) -> In (Post pub' blk) e -> no_nil (b_txs blk).
 Proof.
   intros c p now from pub lb st st' e pub' blk H Hin. unfold add_lt in H.
+  destruct ((lt_txcount lb <=? 0) || (Z.of_nat (length (lt_sh lb)) <? lt_txcount lb));
+    [inversion H; subst; destruct Hin|].
   destruct (lt_hdr lb) as [h|]; [|discriminate].
   destruct (go_make (c_cap c) (h_txcount h)) as [txs0| |]; try discriminate.
   destruct (set_nth txs0 0 (lt_miner lb)) as [txs1|]; [|discriminate].
@@ -122,7 +127,7 @@ Proof.
     intros j C. apply nth_error_In, in_map_iff in C as [t [C _]]. discriminate.
   - destruct (mp_push hs sh shcap t (w_mp w)). inversion H; subst. destruct Hin.
   - inversion H; subst. destruct Hin.
-  - unfold tick_raw in H. destruct (scan (c_noval c) (mp_idx (w_mp w)) now (c_timeout c) (st_pend (w_st w))) as [[[k t] e0]| |] eqn:Es;
+  - unfold tick_raw in H. destruct (scan (mp_idx (w_mp w)) now (c_timeout c) (st_pend (w_st w))) as [[[k t] e0]| |] eqn:Es;
       simpl in H; try discriminate. inversion H; subst.
     apply in_app_or in Hin as [A|A]; [eapply scan_posts_full; eauto|exfalso; eapply requests_no_post; eauto].
   - inversion H; subst. destruct Hin.
